@@ -4,6 +4,7 @@ package main
 // property it is registered under; shared functions are used by more than one property.
 
 import (
+	"go/ast"
 	"go/token"
 	"go/types"
 	"strings"
@@ -313,6 +314,10 @@ func minLenByOrigin(p *Prog, v ssa.Value, depth int) int64 {
 		case *ssa.Parameter:
 			if x.Parent() != nil && rawMsgParamFuncs[x.Parent().Name()] && inMosdns(x.Parent()) {
 				n = 12
+			} else if x.Parent() != nil && inMosdns(x.Parent()) && !ast.IsExported(x.Parent().Name()) && x.Parent().Parent() == nil {
+				// an unexported helper: what every static call site hands in (an extracted helper sees the same bytes
+				// its caller indexed before the extraction)
+				n = paramMinLenByCallers(p, x, depth+1)
 			}
 		case *ssa.Extract:
 			if cl, ok := x.Tuple.(*ssa.Call); ok {
@@ -609,13 +614,29 @@ func checkLineLoader(c *Ctx, f *ssa.Function, isParser func(*ssa.Call) bool, wha
 	v := lineArg
 	okChain := false
 	why := ""
-	for depth := 0; depth < 12; depth++ {
+	paramSubst := map[*ssa.Parameter]ssa.Value{}
+	for depth := 0; depth < 16; depth++ {
+		if prm, isP := v.(*ssa.Parameter); isP {
+			if a, has := paramSubst[prm]; has {
+				v = a
+				continue
+			}
+		}
 		cl, ok := v.(*ssa.Call)
 		if !ok {
 			why = "the line handed to the parser derives from " + exprStr(v) + ", not from a recognised clean-up of scanner.Text()"
 			break
 		}
 		cn := callName(cl)
+		// a clean-up helper of the module: one string parameter, one return whose value is again a chain over that
+		// parameter — looked into, so that extracting the steps into a function changes nothing
+		if h := cl.Call.StaticCallee(); h != nil && inMosdns(h) && len(h.Blocks) > 0 && cn != "pkg/utils.RemoveComment" && len(h.Params) == 1 && len(cl.Call.Args) == 1 {
+			if rets := returnsOf(h); len(rets) == 1 && len(rets[0].Results) == 1 {
+				paramSubst[h.Params[0]] = cl.Call.Args[0]
+				v = rets[0].Results[0]
+				continue
+			}
+		}
 		if cn == "(*bufio.Scanner).Text" {
 			okChain = true
 			break
@@ -688,10 +709,20 @@ func checkLineLoader(c *Ctx, f *ssa.Function, isParser func(*ssa.Call) bool, wha
 				}
 			}
 		}
+		// the same test spelled `line != ""`
+		if cm, ok := g.asCmp(); ok && cm.Op == token.NEQ && cm.X == lineArg {
+			if cs, isC := cm.Y.(*ssa.Const); isC && cs.Value != nil && cs.Value.ExactString() == `""` {
+				n++
+				continue
+			}
+		}
 		if v, _ := g.asBool(); v != nil {
 			if cl, ok := v.(*ssa.Call); ok && callName(cl) == "(*bufio.Scanner).Scan" {
 				continue
 			}
+		}
+		if g.Derived {
+			continue
 		}
 		condOK = false
 	}
@@ -977,6 +1008,27 @@ func checkReplyChanConsumers(c *Ctx, funcs []*ssa.Function) {
 						// table is still empty, so a non-blocking receive on it (e.g. a drain on close) takes no reply away.
 						c.ok(key, instrPos(in), "non-blocking receive on a channel still in the waiter table (empty by construction)")
 						continue
+					}
+					if !allowed[funcName(fn)] && !x.Blocking {
+						// a reply poll helper that only the registered exchanges call, each on the channel it waits on
+						if sum := replyPollSummary(fn); sum != nil {
+							sites, asValue := callSitesOf(fn)
+							okSites := !asValue && len(sites) > 0
+							for _, st := range sites {
+								par := st.Parent()
+								for par.Parent() != nil {
+									par = par.Parent()
+								}
+								if !allowed[funcName(par)] {
+									okSites = false
+								}
+							}
+							if okSites && okd && cs.Body != nil && cs.Recv != nil {
+								good, why := retOnly(cs.Body, cs.Recv)
+								c.check(good, key, instrPos(in), "poll helper of the registered exchange: the received reply is returned on every path", why+": a reply that arrived in time is lost")
+								continue
+							}
+						}
 					}
 					if !allowed[funcName(fn)] {
 						c.fail(key, instrPos(in), "%s receives from a reply channel: only the exchange that registered the channel may take a reply out of it (here a delivered reply is taken away from its waiting caller, who then reports a timeout or the close error)", funcName(fn))
@@ -1293,19 +1345,24 @@ func checkAttemptOutcome(c *Ctx) {
 			continue
 		}
 		good, n := true, 0
-		eachInstrDeep(f, func(g *ssa.Function, in ssa.Instruction) {
-			ci, ok := isCall(in, "builtin:close")
-			if !ok {
-				return
-			}
-			if k, _ := loadedField(ci.Common().Args[0]); k != cf.notify {
-				return
-			}
-			n++
-			if !closeErrStoredFor(c.P, g, in, cf.errField) {
-				good = false
-			}
-		})
+		// wherever the notification of this connection type is closed (the close routine may delegate to a sibling)
+		seenIn := map[ssa.Instruction]bool{}
+		for _, tf := range c.P.funcsIn(relTransport) {
+			eachInstrDeep(tf, func(g *ssa.Function, in ssa.Instruction) {
+				ci, ok := isCall(in, "builtin:close")
+				if !ok || seenIn[in] {
+					return
+				}
+				if k, _ := loadedField(ci.Common().Args[0]); k != cf.notify {
+					return
+				}
+				seenIn[in] = true
+				n++
+				if !closeErrStoredFor(c.P, g, in, cf.errField) {
+					good = false
+				}
+			})
+		}
 		c.check(good && n > 0, "close-error-before-notify@"+cf.recv, f.Pos(), "the close error is stored before the notification is closed",
 			"the close notification is closed before the close error is stored: a waiter woken by it returns (nil, nil), which the retry loop treats as success")
 	}
@@ -1318,6 +1375,33 @@ func checkAttemptOutcome(c *Ctx) {
 func iterationCanSkip(target ssa.Instruction, allowedSkip func(iff *ssa.If, truth bool) bool) (bool, *ssa.BasicBlock) {
 	hdr := innermostLoopHeader(target.Block())
 	if hdr == nil {
+		// the loop body was extracted into a new helper that the loop calls (and nobody else): an iteration skips the
+		// target when the helper can return without executing it
+		if ch := helperLoopHeader(target); ch != nil {
+			fn := target.Parent()
+			seen := map[*ssa.BasicBlock]bool{}
+			skip := false
+			var walk func(b *ssa.BasicBlock)
+			walk = func(b *ssa.BasicBlock) {
+				if skip || seen[b] || b == target.Block() {
+					return
+				}
+				seen[b] = true
+				if _, isRet := terminator(b).(*ssa.Return); isRet && b.Comment != "recover" {
+					skip = true
+					return
+				}
+				iff, _ := terminator(b).(*ssa.If)
+				for si, sb := range b.Succs {
+					if iff != nil && allowedSkip != nil && allowedSkip(iff, si == 0) {
+						continue
+					}
+					walk(sb)
+				}
+			}
+			walk(fn.Blocks[0])
+			return skip, ch
+		}
 		return false, nil
 	}
 	// natural loop body: blocks that reach a back-edge source without passing the head
@@ -1372,7 +1456,6 @@ func iterationCanSkip(target ssa.Instruction, allowedSkip func(iff *ssa.If, trut
 	}
 	return skip, hdr
 }
-
 
 // checkCtxCallsGetCallerCtx: inside the transports' ExchangeContext functions every call of a mosdns function that
 // takes a context (dial helpers, reservation, attempts) is given the caller's own context parameter.
@@ -1531,7 +1614,6 @@ func checkDoneCaseReportsOwnCtx(c *Ctx, funcs []*ssa.Function) {
 	}
 }
 
-
 // chanFromWaiterTable: v is an element of TraditionalDnsConn.queue obtained by ranging over / indexing the table.
 func chanFromWaiterTable(p *Prog, v ssa.Value) bool {
 	qk := relTransport + ".TraditionalDnsConn.queue"
@@ -1588,4 +1670,83 @@ func tableHoldsOnlyUnanswered(p *Prog) bool {
 		}
 	})
 	return found
+}
+
+// paramMinLenByCallers: the least length that every static call site of prm's function guarantees for the argument
+// bound to prm (by a dominating length guard, a known construction length or the argument's own origin); 0 when the
+// function has no static call site, is used as a value, or a site guarantees nothing.
+func paramMinLenByCallers(p *Prog, prm *ssa.Parameter, depth int) int64 {
+	fn := prm.Parent()
+	idx := -1
+	for i, q := range fn.Params {
+		if q == prm {
+			idx = i
+		}
+	}
+	if idx < 0 || depth > 4 {
+		return 0
+	}
+	best := int64(-1)
+	for _, f := range p.Funcs {
+		if !inMosdns(f) {
+			continue
+		}
+		bad := false
+		eachInstr(f, func(in ssa.Instruction) {
+			ci, ok := in.(ssa.CallInstruction)
+			if !ok {
+				// the function used as a value: unknown callers
+				for _, op := range in.Operands(nil) {
+					if op != nil && *op == ssa.Value(fn) {
+						bad = true
+					}
+				}
+				return
+			}
+			if ci.Common().StaticCallee() != fn {
+				for _, a := range ci.Common().Args {
+					if a == ssa.Value(fn) {
+						bad = true
+					}
+				}
+				return
+			}
+			if idx >= len(ci.Common().Args) {
+				bad = true
+				return
+			}
+			arg := ci.Common().Args[idx]
+			n := lenLowerBound(in, arg)
+			if kl := sliceKnownLen(arg, 0); kl > n {
+				n = kl
+			}
+			if ol := minLenByOrigin(p, arg, depth); ol > n {
+				n = ol
+			}
+			if best < 0 || n < best {
+				best = n
+			}
+		})
+		if bad {
+			return 0
+		}
+	}
+	if best < 0 {
+		return 0
+	}
+	return best
+}
+
+// helperLoopHeader: in sits in a new helper (see isNewHelper) without a loop around it, whose single call site lies in
+// a loop of its caller — that loop's header; nil otherwise.
+func helperLoopHeader(in ssa.Instruction) *ssa.BasicBlock {
+	fn := in.Parent()
+	if fn == nil || !isNewHelper(fn) {
+		return nil
+	}
+	site := soleCallSite(fn)
+	if site == nil {
+		return nil
+	}
+	return innermostLoopHeader(site.Block())
 }
